@@ -23,6 +23,7 @@ import (
 	fs "verifharness/fakesentinel"
 	"verifharness/gen"
 	"verifharness/obs"
+	ro "verifharness/routeobs"
 )
 
 type Case struct {
@@ -33,7 +34,7 @@ type Case struct {
 var kindsFlag = flag.String("kinds", "refresh,refresh,refresh,switch", "case kinds to generate")
 
 func genCase(r *gen.Rand, i int) any {
-	return Case{K: gen.Pick(r, strings.Split(*kindsFlag, ",")), Seed: r.U64()}
+	return Case{K: gen.Pick(r, strings.Split(*kindsFlag, ",")), Seed: r.U64() ^ ro.SeedMix()}
 }
 
 func saddr(a string) string {
